@@ -41,6 +41,8 @@ def check(repo, col, tier):
     _c11._named(repo, col, "R-C10-select")
     col.rule("R-C10-edges", "a view selected by nodes shows an edge iff both of its ends are in view (set through the view touches no other synapse)", 3)
     _c11._edges(repo, col, "R-C10-edges")
+    col.rule("R-C10-tables", "the parameters start from the table columns of the same name", 3)
+    table_values(repo, col, "R-C10-tables")
     col.rule("R-C10-classify", "a trainable is intersected with the view's rows of its own table (nodes vs edges)", 3)
     _c19._classify(repo, col, "R-C10-classify")
     col.rule("R-C10-viewtrain", "a view shows / deletes its own half of the trainables", 5)
@@ -710,6 +712,29 @@ def view_trainables(repo, col, R):
                   f"the count becomes {v.short(80)}", node=s_.node)
     if not cnt:
         col.unk(R, fi, "the base's number of trainable parameters goes down by the view's", "no count update found", node=fi.node)
+
+
+def table_values(repo, col, R):
+    """What get_all_parameters starts from (before the overrides given through trainables / data_set are written) is the tables
+    themselves: `params[name] = jaxnodes[name]` for every node parameter and channel parameter, `params[name] = jaxedges[name]` for every
+    synapse parameter -- the SAME name, the column as it is (NaN where a compartment has no such channel: a parameter SHARED by two
+    channels, e.g. `vt` of Na and K, would otherwise be overwritten by the defaults of the channel that is handled last)."""
+    fi = repo.method("Module", "get_all_parameters")
+    ex = idx.expander(repo, fi)
+    base = [s_ for s_ in ex.stores if s_.kind == "sub" and isinstance(s_.node, ast.Subscript) and
+            (s_.key.op == "elem" or (s_.key.op == "item" and s_.key.args and s_.key.args[0].op == "elem")) and
+            T.find(s_.key, lambda x: x.op == "param" and x.name == fi.params[1]) is None]
+    if len(base) < 3:
+        col.unk(R, fi, "get_all_parameters starts from the table values", f"only {len(base)} base stores found", node=fi.node)
+        return
+    for s_ in base:
+        v = s_.value
+        own = v.op == "sub" and v.args[0].op == "attr" and v.args[0].name in ("jaxnodes", "jaxedges") and v.args[1].key() == s_.key.key()
+        edge_key = T.find(s_.key, lambda x: x.op == "attr" and x.name in ("synapse_param_names", "synapse_params")) is not None
+        right_tbl = own and ((v.args[0].name == "jaxedges") == edge_key)
+        col.check(own and right_tbl, R, fi, f"get_all_parameters: `{unparse(s_.node)[:50]}` is the table column of the same name", "jaxnodes[name] / jaxedges[name]",
+                  f"the entry is `{v.short(90)}`: not the table value of that parameter (a default or a masked copy substituted here reaches every channel that "
+                  f"shares the name; compartments that hold only the other channel lose their own value)", node=s_.node)
 
 
 def view_count(repo, col, R):
